@@ -6,19 +6,19 @@ bound = {
  "C02": "all nil-combinations of bounds, full-width values, digit strings of 1..3 digits (+sign), strings as Len, multi-byte strings for rune counting, unit strings (PB+TB, 4 digits each) on an int schema",
  "C03": "N = 2 properties, rule slots <= 2 per list, all supplied subsets, defaults, disabled (also under the shorthand), one-of members under zero keys",
  "C04": "27 schema kinds x 45 data shapes x 4 operations; nested once under list/map/object/any",
- "C05": "<= 2 Executes (serial, overlapping, finishing together), 1 signal, v1 framing, 1 preemption (short and long pause)",
- "C06": "2 Executes + Close, signals both ways (0..2 from the peer, 1 to the step), errors without run id (alone / while busy), 1 preemption",
+ "C05": "<= 2 Executes (serial, back to back, overlapping, finishing together), 1 signal, v1 framing, 1 preemption (short and long pause)",
+ "C06": "2 Executes + Close, signals both ways (0..2 from the peer, 1 to the step), 1..3 peer signals without a listener, errors without run id (alone / while busy), 1 preemption",
  "C07": "12 message kinds x 2 messages x 4 step behaviours x 2 endings; two-run conversation; end right after 1..2 work-starts; end of input while a step runs",
- "C08": "5 handshake faults; 9 reply scripts x <= 2 Executes (serial/overlapping); server gone with an unclosed signal channel",
+ "C08": "5 handshake faults; 11 reply scripts (2 with the stream left open) x <= 2 Executes (serial/overlapping); server gone with an unclosed signal channel",
  "C09": "10 scope families + plugin schema with 2 signal handlers and 2 emitters; each path interprets ~10^5 instructions of the meta-schema",
- "C10": "every node of 4 scope descriptions and 1 plugin description x 11 mutations; 10 grammar-free shapes",
+ "C10": "every node of 5 scope descriptions and 1 plugin description x 11 mutations; 10 grammar-free shapes",
  "C11": "CallStep over 13 representations x 3 step ids x 3 output ids x 3 data kinds; signals; 4 arrival orders x 4 step endings; 3-goroutine race; no initializer",
  "C12": "9 schema/argument families; maps <= 3 entries per order exploration; 3 x 2 call histories",
- "C13": "16 first-use operation families, Eraser lockset per shared location",
+ "C13": "17 first-use operation families, Eraser lockset per shared location",
  "C14": "2-level scope tree, 3 references (inner, outer, non-root), 4 placements, 4 application orders",
  "C15": "16 nil-combinations x 4 kinds, 12 kinds reflexive, 12 x 12 kind pairs, enums <= 3, objects <= 3 properties",
- "C16": "quantities < 2^12 over 4 unit sets, 4 windows of 16 above 2^53, counts <= 5 digits, PB+TB running sum, metacharacter names, 9 malformed shapes",
- "C17": "8 fault kinds x positions in 3 nested schemas, 5 presence-rule faults x Unserialize/Validate",
+ "C16": "quantities < 2^12 over 4 unit sets, 4 windows of 16 above 2^53, counts <= 5 digits, PB+TB running sum, metacharacter names, 9 malformed shapes; whole float quantities < 2^4 over 2 unit sets (short and long form)",
+ "C17": "8 fault kinds x positions in 3 nested schemas, 5 presence-rule faults, 23 faults in a deep scope and 8 in struct-mapped objects x Unserialize/Validate",
  "C19": "0..2 objects x 0..2 properties x 5 type IDs x 3 argument forms x all map orders",
 }
 rows = []
